@@ -429,5 +429,24 @@ def argmax_folds(cx, body):
             if n[0] == 'param' and n[1] == 3:
                 return ('itervar', src)
             return None
-        out.append({'src': src, 'init': ei['z'], 'value': simplify(IN.subst(take['v'], sub)), 'item': simplify(IN.subst(take['item'], sub)), 'site': s})
+        val, item = simplify(IN.subst(take['v'], sub)), simplify(IN.subst(take['item'], sub))
+        # a fold over `S.iter().map(f)`: the running element is f(running element of S)
+        em = _m('(call Iterator::map $S $f)', src)
+        if em is not None and isinstance(em['f'], tuple) and em['f'][0] == 'closure':
+            fx = IN.closure_apply(cx.facts, em['f'], (('itervar', em['S']),))
+            if fx is not None:
+                whole = ('itervar', src)
+                val = simplify(IN.subst(val, lambda n: fx if n == whole else None))
+                item = simplify(IN.subst(item, lambda n: fx if n == whole else None))
+                src = em['S']
+
+                def proj(n):
+                    # field k of a tuple literal is its k-th component
+                    if n[0] == 'field' and len(n) == 3 and isinstance(n[2], tuple) and n[2][:2] == ('agg', 'tuple'):
+                        for comp_ in n[2][2:]:
+                            if isinstance(comp_, tuple) and len(comp_) == 2 and str(comp_[0]) == str(n[1]):
+                                return comp_[1]
+                    return None
+                val, item = simplify(IN.subst(val, proj)), simplify(IN.subst(item, proj))
+        out.append({'src': src, 'init': ei['z'], 'value': val, 'item': item, 'site': s})
     return out
